@@ -252,8 +252,9 @@ def explore_backbone(ctx: common.Ctx, kind: str, n_jobs: int, opts: dict, procs:
     backbone set.  Each completed result gets 'S' and 'real_set' (+ 'S_mixed' for circRNA cases
     that disagree)."""
     from . import cv_backbone
-    worker = cv_backbone.fusion_worker if kind == 'fusion' else cv_backbone.circ_worker
-    op = 'cvb' if kind == 'fusion' else 'cvc'
+    worker = {'fusion': cv_backbone.fusion_worker, 'circ': cv_backbone.circ_worker,
+              'combo': cv_backbone.combo_worker}[kind]
+    ops = {'fusion': ['cvb'], 'circ': ['cvc'], 'combo': ['cvb', 'cvc']}[kind]
     jobs = [(ctx.rng(kind + 'job', i).randrange(1 << 30), ctx.tier, opts) for i in range(n_jobs)]
     with mp.get_context('fork').Pool(min(procs, max(1, n_jobs))) as pool:
         res = pool.map(worker, jobs)
@@ -287,15 +288,17 @@ def explore_backbone(ctx: common.Ctx, kind: str, n_jobs: int, opts: dict, procs:
     # pass 2: the backbone
     lines, idx = [], []
     for i, r in enumerate(done):
-        if op in r:
-            lines.append('\t'.join(r[op] + [r['deny'], r['canon']]))
-            idx.append(i)
+        for op in ops:
+            if op in r:
+                lines.append('\t'.join(r[op] + [r['deny'], r['canon']]))
+                idx.append(i)
     outs = ctx.lean(lines) or []
     for i, o in zip(idx, outs):
         done[i]['S'] |= to_set(o)
     for r in done:
         r['real_set'] = set(r['real'])
-    if kind == 'circ':
+    if kind in ('circ', 'combo'):
+        op = 'cvc'
         lines, idx = [], []
         for i, r in enumerate(done):
             if r['real_set'] != r['S'] and op in r:
@@ -305,6 +308,6 @@ def explore_backbone(ctx: common.Ctx, kind: str, n_jobs: int, opts: dict, procs:
                 idx.append(i)
         outs = ctx.lean(lines) or []
         for i, o in zip(idx, outs):
-            done[i]['S_mixed'] = to_set(o)
+            done[i]['S_mixed'] = to_set(o) | done[i]['S']
     shutil.rmtree(gen_ref.WORK, ignore_errors=True)
     return res
